@@ -275,14 +275,14 @@ def run(c):
     ctx.known_probes(); c.log('probes done')
     ctx.gen_trim1d(150 if quick else 4000); c.log('trim1d generated')
     ctx.gen_grid(80 if quick else 1500); c.log('grid generated')
-    ctx.gen_hier(80 if quick else 1500); c.log('hier generated')
+    ctx.gen_hier(60 if quick else 700); c.log('hier generated')
     # ---- one batch to the Lean model
     ans = c.model([r for r, _ in ctx.requests]); c.log('model answered %d requests' % len(ans))
     for (req, cb), a in zip(ctx.requests, ans):
         cb(req, a)
     ctx.finish_structural()
     # ---- spec-oracle numeric streams
-    ctx.numeric(60 if quick else 1200)
+    ctx.numeric(48 if quick else 900)
     ctx.finish_numeric()
     for b in broken:
         c.broken_no_input('proof', b, dict(detail=b))
@@ -427,6 +427,21 @@ class Ctx:
             err = abs(Fraction(real['rv']) * 2**m - exact)
             if err > Fraction(nmixed, 2 * nb) + Fraction(1, 10**9):
                 self.fail('trim1d', 'trim1d:inaccurate', 'trimmed volume %r deviates from the linear-interpolant volume %s by more than half a bin per cut leaf' % (real['rv'], exact / 2**m), dict(desc, real=real)); return
+            # every exposed end point sits within half a bin of a sign change of the interpolant, facing the negative side
+            changes = []
+            prev = None
+            for i, v in enumerate(lv):
+                sg = (v > 0) - (v < 0)
+                if not sg: continue
+                if prev is not None and sg != prev[0]:
+                    j = prev[1]
+                    root = Fraction(j) + Fraction(lv[j], lv[j] - lv[i]) if i - j == 1 else Fraction(j + 1)
+                    changes.append((root / 2**m, prev[0] > 0))
+                prev = (sg, i)
+            halfbin = Fraction(1, 2**(m + nd + 1))
+            for p, sgn in real['rc']:
+                if not any(abs(Fraction(p) - r) <= halfbin and sgn == o for r, o in changes):
+                    self.fail('trim1d', 'trim1d:cut-misplaced', 'exposed end point %r (outward %s) of the trimmed line is not at a sign change of the level samples %r' % (p, '+' if sgn else '-', lv), dict(desc, real=real)); return
         # ---- model correspondence
         def cb(req, a, real=real, desc=desc, lv=lv, m=m, nd=nd):
             f = a.split('|')
@@ -483,7 +498,8 @@ class Ctx:
             if how == 'self':
                 t = base
             elif how == 'subset' or len(sel) == ncell:
-                t = base.subset(base.take(sel), newboundary='trimmed')
+                picked = base.take(sel) if rng.random() < .5 else base.compress(numpy.array(mask, dtype=bool)) if rng.random() < .5 else base[numpy.array(sel)]
+                t = base.subset(picked, newboundary='trimmed')
             elif how == 'minus':
                 t = base - base.subset(base.take([i for i in range(ncell) if not mask[i]]), newboundary='cut')
             else:
@@ -606,8 +622,8 @@ class Ctx:
         from nutils import mesh
         c = self.c; rng = self.rng
         nd = len(shape)
-        maxops = 5 if self.quick else 12
-        cap = 150 if self.quick else 500
+        maxops = 5 if self.quick else 10
+        cap = 150 if self.quick else 300
         desc = dict(stream='hier', shape=list(shape), periodic=[k for k in range(nd) if per[k]])
         lo, hi = [0] * nd, list(shape)
         bper = list(per)
@@ -732,7 +748,7 @@ class Ctx:
             if 'cells' in real and min(l for l, _ in real['cells']) >= nref:
                 defect = HierSpec(lo, hi, bper).check_partition([(l - nref, idx) for l, idx in real['cells']])
                 if defect:
-                    self.fail('hier', 'hier-cells:' + defect.split(' ')[0], 'after the history the elements do not partition the base: ' + defect, dict(desc, cells=real['cells'])); return
+                    self.fail('hier', self._cells_sig(defect, steps), 'after the history the elements do not partition the base: ' + defect, dict(desc, cells=real['cells'])); return
             if real['cls'] == 'inconsistent:geometry':
                 self.fail('hier', 'hier-faces:inconsistent-chains', 'boundary / interface chains of the hierarchical topology are geometrically inconsistent: ' + real['exc'], dict(desc, real=real))
             elif real['cls'].startswith('crash'):
@@ -759,6 +775,13 @@ class Ctx:
                     self.disagree('hier', 'refined_by with an element index outside the range: real code %s, model %s' % (outcome, a), dict(desc, request=req))
             self.req('hier|%s|%s|%s' % (' '.join(map(str, lo)), ' '.join(map(str, hi)), ';'.join(ops_bad)), cb2)
 
+    @staticmethod
+    def _cells_sig(defect, steps):
+        # overlap after a refined_by with a negative element index is the known root cause `refined_by:negative-index-overlap`
+        if any('B ' in st and '-' in st for st in steps) and ('overlaps' in defect or 'duplicate' in defect or 'measure' in defect):
+            return 'refined_by:negative-index-overlap'
+        return 'hier-cells:' + defect.split(' ')[0]
+
     def _hier_oracle(self, desc, nd, nref, lo, hi, per, real):
         # cells are in level-(nref) units: shift levels so that the base is level 0
         def sh(cell): return (cell[0] - nref, cell[1])
@@ -768,7 +791,7 @@ class Ctx:
         spec = HierSpec(lo, hi, per)
         defect = spec.check_partition(cells)
         if defect:
-            self.fail('hier', 'hier-cells:' + defect.split(' ')[0], 'after the history the elements do not partition the base: ' + defect, dict(desc, cells=real['cells'])); return
+            self.fail('hier', self._cells_sig(defect, desc['steps']), 'after the history the elements do not partition the base: ' + defect, dict(desc, cells=real['cells'])); return
         if not real['full']:
             self.fail('hier', 'hier-cells:partial-reference', 'an element of a refined structured topology has a partial reference', dict(desc)); return
         o = real['obs']
@@ -931,7 +954,7 @@ class Ctx:
             cur = topo; curvol = v0
             if kind == 'union':
                 self._union_case(topo, x, desc, nd, J); return
-            nops = rng.randint(1, 3)
+            nops = rng.choice([0, 1, 1, 2, 2, 3])
             for iop in range(nops):
                 if len(cur) > (120 if self.quick else 300): break
                 if kind == 'product':
